@@ -188,6 +188,19 @@ func parent(ck *checks.Check, tier string, seed int64, verif, scratch string) in
 						Msg: "an unrecovered panic whose innermost non-runtime frame is library code ended the process: " + frame}, Index: w, Detail: msg})
 					return
 				}
+				head := ""
+				for _, mark := range []string{"fatal error:", "\npanic:", "SIGSEGV", "unexpected signal", "runtime: "} {
+					if k := strings.Index(string(tail), mark); k >= 0 {
+						head = string(tail)[k:]
+						if len(head) > 500 {
+							head = head[:500]
+						}
+						break
+					}
+				}
+				if head != "" {
+					msg = "crash: " + head + " … " + msg
+				}
 				why := fmt.Sprintf("worker %d produced no result (%v)", w, err)
 				if ctx.Err() != nil {
 					why = fmt.Sprintf("worker %d hit the wall-clock watchdog (%s)", w, limit)
@@ -423,7 +436,11 @@ func doReplay(ck *checks.Check, file, verif, scratch string) int {
 func libraryPanicFrame(out string) string {
 	i := strings.Index(out, "\npanic: ")
 	if i < 0 && !strings.HasPrefix(out, "panic: ") {
-		return ""
+		// a runtime throw ("fatal error: …") is judged the same way: by the crashing goroutine's innermost
+		// frame outside the runtime
+		if i = strings.Index(out, "fatal error: "); i < 0 {
+			return ""
+		}
 	}
 	if i < 0 {
 		i = 0
